@@ -264,8 +264,10 @@ class Exit:
         if kind == "noparticles":
             sim = self.setup(integ, kind, dt, sign)
             k = when
-            if k >= nb - 1:
-                return []      # at or after the last boundary the call is over anyway
+            if k == 13:
+                k = nb - 1     # the boundary that ends the call: the particles vanish in the very step that reaches the target
+            if k > nb - 1:
+                return []
 
             def hb2(ptr):
                 hb2.n += 1
@@ -409,7 +411,7 @@ def compositions(offsets):
 def run(ctx):
     rebound = ctx.use("rel")
     integs = ["ias15", "ias15_mindt", "ias15_fixed", "whfast", "whfast_unsafe", "whfast_keep", "saba", "saba_unsafe", "leapfrog", "janus", "eos", "eos_unsafe", "bs", "mercurius", "mercurius_unsafe", "trace", "sei", "none"]
-    dts = [0.1, 0.3, math.pi / 10, 7.0]
+    dts = [0.1, 0.3, math.pi / 10, 7.0, 1.0 / 3.0, 0.06]
     t0s = [0.0, 1.7, -2.3] + ([1e6] if ctx.tier == "thorough" else [])
     tasks = []
     for integ in integs:
@@ -419,6 +421,9 @@ def run(ctx):
             if integ in SMALL_DT_ONLY and dt != 0.1:
                 continue
             offs = [0.0, dt / 3, dt, 2 * dt, 2.5 * dt, 10 * dt, 10 * dt * (1 + 1e-13), 10 * dt * (1 - 1e-13)]
+            if dt in (1.0 / 3.0, 0.06, 0.1):
+                # targets that are whole multiples of the step in decimal but not in binary: the accumulated time passes them by an ulp
+                offs += [5 * dt, 60 * dt]
             comps = [[o] for o in offs]
             pairs = [0.0, dt / 3, 2.5 * dt, 10 * dt] if ctx.tier == "quick" else offs
             comps += [[a, b] for a in pairs for b in pairs]
